@@ -645,3 +645,62 @@ func ruleR2_11(r *Run) {
 	r.check(okCtx && okNew, "datastore.deleteConflict:deletes-under-extension-version", "the tombstone is written under the extension node's version; a missing extension is created by newVersion",
 		"deleteConflict does not write under the extension node's version or no longer creates the extension", w.fpos(one))
 }
+
+func init() {
+	register(ruleDef{ID: "R2.12", Prop: "C02", Tier: "quick", Floor: 2,
+		Title: "the full-write override (which switches the committed-node gate off for every request) is turned on only by its own switch: SetFullWrite's argument or the \"fullwrite\" configuration mode; every other store to it is the constant false",
+		Fn:    ruleR2_12})
+}
+
+func ruleR2_12(r *Run) {
+	w := r.W
+	n := 0
+	for _, f := range w.RepoFuncs {
+		if relPkg(pkgPathOf(f)) != "server" || len(f.Blocks) == 0 || strings.HasSuffix(w.fposFile(f), "_test.go") {
+			continue
+		}
+		k := 0
+		for _, b := range f.Blocks {
+			for _, in := range b.Instrs {
+				st, ok := in.(*ssa.Store)
+				if !ok {
+					continue
+				}
+				g, ok := st.Addr.(*ssa.Global)
+				if !ok || g.Name() != "fullwrite" {
+					continue
+				}
+				n++
+				k++
+				okS := false
+				why := ""
+				if c, isC := st.Val.(*ssa.Const); isC {
+					if c.Value != nil && c.Value.String() == "false" {
+						okS = true
+					} else {
+						// constant true: only under the "fullwrite" configuration mode
+						for _, b2 := range f.Blocks {
+							ifi, isIf := b2.Instrs[len(b2.Instrs)-1].(*ssa.If)
+							if !isIf {
+								continue
+							}
+							if bo, isBo := ifi.Cond.(*ssa.BinOp); isBo && bo.Op == token.EQL {
+								if s, isS := constString(bo.Y); isS && s == "fullwrite" && guardedByEdge(ifi, 0, st) {
+									okS = true
+								}
+							}
+						}
+						why = "set to true outside the \"fullwrite\" configuration mode"
+					}
+				} else if p, isP := st.Val.(*ssa.Parameter); isP && f.Name() == "SetFullWrite" && p.Type().String() == "bool" {
+					okS = true
+				} else {
+					why = "set to a computed value (" + st.Val.String() + ")"
+				}
+				r.check(okS, fmt.Sprintf("%s:fullwrite-store#%d", fname(f), k), "the override is cleared, or set by its own switch",
+					"the full-write override is "+why+": leaving read-only mode (e.g. at the end of the transfer-data command) turns the committed-node gate off, so committed versions accept writes from any request", w.pos(st.Pos()))
+			}
+		}
+	}
+	r.check(n >= 2, "server:fullwrite-stores", fmt.Sprintf("%d stores to the override", n), "stores to server.fullwrite not found", "-")
+}
